@@ -8,12 +8,12 @@ Open Scope list_scope.
 
 Section tvalue_ind2.
   Variable P : tvalue -> Prop.
-  Hypothesis HVar : forall n e, P (TVar n e).
+  Hypothesis HVar : forall n e d, P (TVar n e d).
   Hypothesis HLeaf : P TLeaf.
   Hypothesis HKids : forall d ks, Forall (fun kx => P (snd kx)) ks -> P (TKids d ks).
   Fixpoint tvalue_ind2 (v : tvalue) : P v :=
     match v with
-    | TVar n e => HVar n e
+    | TVar n e d => HVar n e d
     | TLeaf => HLeaf
     | TKids d ks =>
         HKids d ks ((fix go (l : list (string * tvalue)) : Forall (fun kx => P (snd kx)) l :=
@@ -69,14 +69,19 @@ Proof.
   induction 1 as [|a l Ha _ IH]; cbn [flat_map]; [tauto|]. rewrite !in_app_iff. tauto.
 Qed.
 
-Lemma walk_kid_kids ts fs c d k ks :
-  walk_kid ts fs c (TKids (Some d) (k :: ks)) =
-  match lookup d ts with None => [] | Some fs' => flat_map (fun kx => walk_kid ts fs' (fst kx) (snd kx)) (k :: ks) end.
-Proof. cbn [walk_kid]. destruct (lookup d ts); [|reflexivity]. rewrite <- walk_go. reflexivity. Qed.
-Lemma wt_kid_kids ts fs c d k ks :
-  wt_kid ts fs c (TKids (Some d) (k :: ks)) =
-  match lookup d ts with None => false | Some fs' => forallb (fun kx => wt_kid ts fs' (fst kx) (snd kx)) (k :: ks) end.
-Proof. cbn [wt_kid]. destruct (lookup d ts); [|reflexivity]. rewrite <- wt_go. reflexivity. Qed.
+Definition fs_of (ts : types) (d : option string) : list (string * string) :=
+  match d with Some d' => match lookup d' ts with Some x => x | None => [] end | None => [] end.
+Lemma fs_of_ok ts d : names_ok ts = true -> lookup "" (fs_of ts d) = None.
+Proof.
+  intros Hn. unfold fs_of. destruct d as [d|]; [|reflexivity].
+  destruct (lookup d ts) eqn:L; [eapply names_ok_fs; eauto|reflexivity].
+Qed.
+Lemma walk_kid_kids ts fs c d ks :
+  walk_kid ts fs c (TKids d ks) = flat_map (fun kx => walk_kid ts (fs_of ts d) (fst kx) (snd kx)) ks.
+Proof. cbn [walk_kid]. rewrite walk_go. reflexivity. Qed.
+Lemma wt_kid_kids ts fs c d ks :
+  wt_kid ts fs c (TKids d ks) = forallb (fun kx => wt_kid ts (fs_of ts d) (fst kx) (snd kx)) ks.
+Proof. cbn [wt_kid]. rewrite wt_go. reflexivity. Qed.
 Lemma kid_positions_kids d ks : kid_positions (TKids d ks) = flat_map (fun kx => kid_positions (snd kx)) ks.
 Proof. cbn [kid_positions]. apply pos_go. Qed.
 
@@ -84,18 +89,16 @@ Lemma kid_iff ts (Hn : names_ok ts = true) v : forall fs chname n t,
   lookup "" fs = None -> wt_kid ts fs chname v = true ->
   (In (n, t) (walk_kid ts fs chname v) <-> In (n, t) (kid_positions v)).
 Proof.
-  induction v as [vn ve| |d ks IH] using tvalue_ind2; intros fs chname n t Hfs Hwt.
-  - cbn [walk_kid kid_positions wt_kid] in *. destruct (chname =? "") eqn:E.
-    + apply String.eqb_eq in E. subst chname. rewrite Hfs, app_nil_r. tauto.
-    + destruct (lookup chname fs) as [t'|]; [|discriminate]. apply String.eqb_eq in Hwt. subst t'. cbn [app]. tauto.
+  induction v as [vn ve vd| |d ks IH] using tvalue_ind2; intros fs chname n t Hfs Hwt.
+  - cbn [walk_kid kid_positions wt_kid] in *. unfold position_type in *. destruct (chname =? "") eqn:E.
+    + apply String.eqb_eq in E. subst chname. rewrite Hfs. destruct ve as [e|]; [tauto|]. destruct vd; tauto.
+    + destruct (lookup chname fs) as [t'|].
+      * destruct ve as [e|]; [|discriminate]. apply String.eqb_eq in Hwt. subst t'. tauto.
+      * destruct ve; [discriminate|]. destruct vd; [tauto|discriminate].
   - cbn. tauto.
-  - destruct ks as [|k0 ks0]; [destruct d; cbn; tauto|].
-    destruct d as [d|]; [|cbn [wt_kid] in Hwt; discriminate].
-    rewrite walk_kid_kids, kid_positions_kids. rewrite wt_kid_kids in Hwt.
-    remember (k0 :: ks0) as ks eqn:Eks. clear Eks k0 ks0.
-    destruct (lookup d ts) as [fs'|] eqn:L; [|discriminate]. rewrite forallb_forall in Hwt.
+  - rewrite walk_kid_kids, kid_positions_kids. rewrite wt_kid_kids in Hwt. rewrite forallb_forall in Hwt.
     apply flat_map_iff_pointwise. rewrite Forall_forall in IH |- *. intros [k x] Hin. cbn [fst snd].
-    apply (IH (k, x) Hin); [eapply names_ok_fs; eauto | apply (Hwt (k, x) Hin)].
+    apply (IH (k, x) Hin); [apply fs_of_ok; exact Hn | apply (Hwt (k, x) Hin)].
 Qed.
 
 Lemma arg_iff ts (Hn : names_ok ts = true) ads a n t :
@@ -103,7 +106,7 @@ Lemma arg_iff ts (Hn : names_ok ts = true) ads a n t :
 Proof.
   destruct a as [an v]. unfold walk_arg, wt_arg, arg_positions. cbn [fst snd].
   destruct (lookup an ads) as [[tstr tname]|]; [|discriminate].
-  destruct v as [vn ve| |d [|k ks]]; intros Hwt.
+  destruct v as [vn ve vd| |d [|k ks]]; intros Hwt.
   - tauto.
   - cbn. tauto.
   - cbn. tauto.
@@ -180,24 +183,88 @@ Theorem only_used_variables_are_declared ts ss n t :
   wt ts ss = true -> header_declares ts ss n = Some t -> In (n, t) (positions ss).
 Proof. intros Hwt E. apply (walk_is_positions ts ss n t Hwt), last_write_some, E. Qed.
 
-(* without the annotation a value with children is skipped: its variables stay undeclared *)
-Example unannotated_value_is_skipped :
-  let ts := [("In", [("q", "String")])] in
-  let ss := [TField (Some [("f", ("[In!]", "In"))]) [("f", TKids (Some "In") [("", TKids None [("q", TVar "v" "String")])])] []] in
-  positions ss = [("v", "String")] /\ header_declares ts ss "v" = None /\ wt ts ss = false.
+(* every occurrence of a variable has a position type under wt, hence is declared *)
+Lemma kid_vars_go ks :
+  (fix go (l : list (string * tvalue)) := match l with [] => [] | (_, x) :: t => kid_vars x ++ go t end) ks =
+  flat_map (fun kx => kid_vars (snd kx)) ks.
+Proof. induction ks as [|[k x] t IH]; cbn [flat_map snd]; [reflexivity|]. rewrite IH. reflexivity. Qed.
+Lemma sel_vars_go sub :
+  (fix go (l : list tsel) := match l with [] => [] | x :: t => sel_vars x ++ go t end) sub = flat_map sel_vars sub.
+Proof. induction sub as [|x t IH]; cbn [flat_map]; [reflexivity|]. rewrite IH. reflexivity. Qed.
+
+Lemma kid_vars_kids d ks : kid_vars (TKids d ks) = flat_map (fun kx => kid_vars (snd kx)) ks.
+Proof. cbn [kid_vars]. apply kid_vars_go. Qed.
+
+Lemma kid_var_has_position ts v : forall fs chname n,
+  wt_kid ts fs chname v = true -> In n (kid_vars v) -> exists t, In (n, t) (kid_positions v).
+Proof.
+  induction v as [vn ve vd| |d ks IH] using tvalue_ind2; intros fs chname n Hwt Hin.
+  - cbn [kid_vars In] in Hin. destruct Hin as [<-|[]]. cbn [wt_kid kid_positions] in *. unfold position_type in *.
+    destruct ve as [e|]; [exists e; left; reflexivity|].
+    destruct vd as [d|]; [exists d; left; reflexivity|].
+    destruct (chname =? ""); [discriminate|]. destruct (lookup chname fs); discriminate.
+  - destruct Hin.
+  - rewrite kid_vars_kids in Hin. apply in_flat_map in Hin as ([k x] & Hi & Hx). cbn [snd] in Hx.
+    rewrite wt_kid_kids in Hwt. rewrite forallb_forall in Hwt. rewrite Forall_forall in IH.
+    destruct (IH (k, x) Hi (fs_of ts d) k n (Hwt (k, x) Hi) Hx) as [t Ht].
+    exists t. rewrite kid_positions_kids. apply in_flat_map. exists (k, x). split; assumption.
+Qed.
+
+Lemma sel_var_has_position ts s n : wt_sel ts s = true -> In n (sel_vars s) -> exists t, In (n, t) (sel_positions s).
+Proof.
+  induction s as [fd args sub IH|sub IH] using tsel_ind2; cbn [sel_vars sel_positions wt_sel];
+    rewrite sel_vars_go, sel_pos_go, sel_wt_go; intros Hwt Hin.
+  - apply andb_true_iff in Hwt as [Ha Hs]. apply in_app_iff in Hin as [Hin|Hin].
+    + apply in_flat_map in Hin as ([an v] & Hi & Hv). cbn [snd] in Hv.
+      destruct fd as [ads|]; [|destruct args; [destruct Hi|discriminate]].
+      rewrite forallb_forall in Ha. specialize (Ha _ Hi). unfold wt_arg in Ha. cbn [fst snd] in Ha.
+      destruct (lookup an ads) as [[tstr tname]|] eqn:L; [|discriminate].
+      assert (exists t, In (n, t) (arg_positions (Some ads) (an, v))) as [t Ht].
+      { unfold arg_positions. cbn [fst snd]. rewrite L. destruct v as [vn ve vd| |d [|k ks]].
+        - cbn [kid_vars In] in Hv. destruct Hv as [<-|[]]. exists tstr. left. reflexivity.
+        - destruct Hv.
+        - destruct Hv.
+        - destruct (lookup tname ts) as [fs|]; [|discriminate].
+          rewrite kid_vars_kids in Hv. apply in_flat_map in Hv as ([k' x] & Hi' & Hx). cbn [snd] in Hx.
+          rewrite forallb_forall in Ha. destruct (kid_var_has_position ts x fs k' n (Ha (k', x) Hi') Hx) as [t Ht].
+          exists t. rewrite kid_positions_kids. apply in_flat_map. exists (k', x). split; assumption. }
+      exists t. apply in_app_iff. left. apply in_flat_map. exists (an, v). split; assumption.
+    + apply in_flat_map in Hin as (x & Hi & Hx). rewrite forallb_forall in Hs. rewrite Forall_forall in IH.
+      destruct (IH x Hi (Hs x Hi) Hx) as [t Ht]. exists t. apply in_app_iff. right. apply in_flat_map. exists x. split; assumption.
+  - apply in_flat_map in Hin as (x & Hi & Hx). rewrite forallb_forall in Hwt. rewrite Forall_forall in IH.
+    destruct (IH x Hi (Hwt x Hi) Hx) as [t Ht]. exists t. apply in_flat_map. exists x. split; assumption.
+Qed.
+
+Theorem every_variable_occurrence_is_declared ts ss n :
+  wt ts ss = true -> In n (vars ss) -> exists t, header_declares ts ss n = Some t /\ In (n, t) (positions ss).
+Proof.
+  intros Hwt Hin. unfold vars in Hin. apply in_flat_map in Hin as (s & Hi & Hs).
+  pose proof Hwt as Hwt'. unfold wt in Hwt'. apply andb_true_iff in Hwt' as [_ Hss]. rewrite forallb_forall in Hss.
+  destruct (sel_var_has_position ts s n (Hss s Hi) Hs) as [t Ht].
+  apply (every_used_variable_is_declared ts ss n t Hwt). unfold positions. apply in_flat_map. exists s. split; assumption.
+Qed.
+
+(* the hypothesis matters: a variable about which neither the schema nor the client's header says anything stays undeclared *)
+Example unknown_variable_is_not_declared :
+  let ts := [("JSON", [])] in
+  let ss := [TField (Some [("data", ("JSON", "JSON"))]) [("data", TKids (Some "JSON") [("k", TVar "v" None None)])] []] in
+  vars ss = ["v"] /\ header_declares ts ss "v" = None /\ wt ts ss = false.
 Proof. vm_compute. repeat split. Qed.
 
-(* non-vacuity: filter: [{q: $a, tags: [$b]}, {and: [{limit: $c}]}] *)
+(* non-vacuity: filter: [{q: $a, tags: [$b]}, {and: [{limit: $c}]}], a: $d, data: {k: [$e]} with data a custom scalar *)
 Definition ex_types : types :=
-  [("In", [("q", "String"); ("limit", "Int"); ("tags", "[String!]"); ("and", "[In!]")]); ("String", []); ("Int", [])].
+  [("In", [("q", "String"); ("limit", "Int"); ("tags", "[String!]"); ("and", "[In!]")]); ("String", []); ("Int", []); ("JSON", [])].
 Definition ex_sels : list tsel :=
-  [TField (Some [("filter", ("[In!]", "In")); ("a", ("Int", "Int"))])
+  [TField (Some [("filter", ("[In!]", "In")); ("a", ("Int", "Int")); ("data", ("JSON", "JSON"))])
      [("filter", TKids (Some "In")
-        [("", TKids (Some "In") [("q", TVar "a" "String"); ("tags", TKids (Some "String") [("", TVar "b" "String!")])]);
-         ("", TKids (Some "In") [("and", TKids (Some "In") [("", TKids (Some "In") [("limit", TVar "c" "Int")])])])]);
-      ("a", TVar "d" "Int")]
+        [("", TKids (Some "In") [("q", TVar "a" (Some "String") (Some "String"));
+                                 ("tags", TKids (Some "String") [("", TVar "b" (Some "String!") (Some "String!"))])]);
+         ("", TKids (Some "In") [("and", TKids (Some "In") [("", TKids (Some "In") [("limit", TVar "c" (Some "Int") (Some "Int!"))])])])]);
+      ("a", TVar "d" (Some "Int") (Some "Int"));
+      ("data", TKids (Some "JSON") [("k", TKids None [("", TVar "e" None (Some "Float"))])])]
      [TInline [TField None [] []]]].
 Example ex_header :
   wt ex_types ex_sels = true /\
-  map (header_declares ex_types ex_sels) ["a"; "b"; "c"; "d"; "e"] = [Some "String"; Some "String!"; Some "Int"; Some "Int"; None].
+  map (header_declares ex_types ex_sels) ["a"; "b"; "c"; "d"; "e"; "f"] =
+    [Some "String"; Some "String!"; Some "Int"; Some "Int"; Some "Float"; None].
 Proof. vm_compute. split; reflexivity. Qed.
